@@ -269,6 +269,47 @@ def guarded_replay(ctx, W, cn, idxs, nt, probe_every, probe_init):
     return None, None
 
 
+_POOL_WORLD = None
+
+
+def _pool_job(chunk):
+    out = []
+    for cn, idxs, nt, every, pinit in chunk:
+        try:
+            with time_limit(10):
+                out.append(_POOL_WORLD.replay(cn, idxs, nt, every, pinit))
+        except ImplTimeout:
+            out.append(("timeout", None))
+    return out
+
+
+def replay_all(ctx, W, jobs):
+    """Replay every job (in order).  Large batches are spread over forked worker processes; the
+    result does not depend on how (each history runs on its own fresh container)."""
+    global _POOL_WORLD
+    if len(jobs) < 30000:
+        return [guarded_replay(ctx, W, *j) for j in jobs]
+    import multiprocessing
+
+    _POOL_WORLD = W
+    chunks = [jobs[i : i + 500] for i in range(0, len(jobs), 500)]
+    with multiprocessing.get_context("fork").Pool(8) as pool:
+        parts = pool.map(_pool_job, chunks)
+    out = []
+    for chunk, part in zip(chunks, parts):
+        for (cn, idxs, nt, every, pinit), r in zip(chunk, part):
+            if r[0] == "timeout":
+                ctx.violation(
+                    "impl-nonterminating",
+                    "an effect-insertion history does not terminate within 10 s",
+                    {"c": cn, "nt": nt, "ops": idxs},
+                )
+                out.append((None, None))
+            else:
+                out.append(r)
+    return out
+
+
 # ----------------------------------------------------------------------------------------
 # TLC runs
 # ----------------------------------------------------------------------------------------
@@ -302,7 +343,9 @@ def judge(ctx, label, tabpath, traces, repaired, batch=40000):
         path = os.path.join(d, "traces.ndjson")
         tlc.write_ndjson(path, part)
         cfg = TRACE_CFG % {"rep": "TRUE" if repaired else "FALSE"}
-        res = tlc.run_tlc("EffectConflictsTrace", cfg, d, env={"TRACES": path, "TABLE": tabpath}, workers=8, timeout=3000)
+        res = tlc.run_tlc(
+            "EffectConflictsTrace", cfg, d, env={"TRACES": path, "TABLE": tabpath}, workers=8 if ctx.quick else 16, timeout=3000
+        )
         if res.error or res.violated:
             raise MachineryError("EffectConflictsTrace failed: %s %s" % (res.violated, res.error))
         expected = sum(len(t["ops"]) + 1 for t in part)
@@ -331,7 +374,7 @@ def t1(ctx, cfgs):
                 "MCEffectConflicts",
                 T1_CFG % {"level": c["level"], "nt": c["nt"], "maxops": c["maxops"], "rep": rep, "props": props},
                 d,
-                workers=1 if name == "as-written" else 8,  # 1 worker: deterministic counterexample
+                workers=1 if name == "as-written" else (8 if ctx.quick else 16),  # 1 worker: deterministic counterexample
                 coverage=cover,
                 timeout=3000,
             )
@@ -416,9 +459,12 @@ def run(ctx):
     traces, excnames, pergroup = [], {}, {}
     nontrivial = rejected_then_more = 0
     seen_init = set()
+    jobs = []
     for g, cn, idxs, nt, every in todo:
-        t, excs = guarded_replay(ctx, W, cn, idxs, nt, every, (cn, nt) not in seen_init)
+        jobs.append((cn, idxs, nt, every, (cn, nt) not in seen_init))  # the fresh container is probed once
         seen_init.add((cn, nt))
+    results = replay_all(ctx, W, jobs)
+    for (g, cn, idxs, nt, every), (t, excs) in zip(todo, results):
         if t is None:
             continue
         t["id"] = len(traces)
@@ -472,9 +518,9 @@ def run(ctx):
         ]
     else:
         cfgs = [
-            dict(level=2, nt=1, maxops=4, runs=runs),
+            dict(level=2, nt=1, maxops=4, runs=[runs[0], runs[2]]),
             dict(level=1, nt=1, maxops=5, runs=runs[1:]),
-            dict(level=1, nt=2, maxops=4, runs=runs[1:]),
+            dict(level=1, nt=2, maxops=4, runs=runs[2:]),
         ]
     t1res = t1(ctx, cfgs)
     ctx.notes["t1"] = [{k: r[k] for k in ("label", "violated", "why")} for r in t1res]
